@@ -177,20 +177,32 @@ def collect_selects(t, acc, bound=frozenset()):
             acc.add((s[2], s[3]))
 
 
-def ground_index_terms(ts):
-    idx = set()
+def ground_index_terms(ts, include_uf=False, bound_names=()):
+    idx = {}
     for t in ts:
         if t[0] == 'q':
             continue
         for s in T.subterms(t):
+            if s[0] == 'q':
+                continue
             if s[0] == 'a' and s[1] == 'select':
-                if T.sort_of(s[3]) == T.INT:
-                    idx.add(s[3])
-            elif s[0] == 'a' and s[1].startswith('uf:'):
+                if T.sort_of(s[3]) == T.INT and not bound_in(s[3], bound_names):
+                    idx.setdefault(T.linear(s[3]), s[3])
+            elif include_uf and s[0] == 'a' and s[1].startswith('uf:spec_'):
                 for a in s[2:]:
-                    if a[0] != 'b' and T.sort_of(a) == T.INT:
-                        idx.add(a)
+                    if a[0] != 'b' and T.sort_of(a) == T.INT and not bound_in(a, bound_names):
+                        idx.setdefault(T.linear(a), a)
     return idx
+
+
+def bound_in(t, bound_names):
+    """does t mention a quantifier-bound variable?"""
+    if not bound_names:
+        return False
+    for n in T.free_vars(t):
+        if n in bound_names:
+            return True
+    return False
 
 
 def has_quant(t):
@@ -208,81 +220,78 @@ def flatten_conj(t, out):
         out.append(t)
 
 
-def instantiate(hyps, goal_parts, rounds=2, cap=4000):
-    """returns (ground hyps incl. instances, dropped_quantified: bool)."""
+def split_quants(hyps):
     ground = []
     quants = []
     for h in hyps:
         parts = []
         flatten_conj(h, parts)
         for p in parts:
-            # guard => forall ...  : keep guard
             g, body = T.TRUE, p
             while body[0] == 'a' and body[1] == '=>' and has_quant(body[3]) and not has_quant(body[2]):
                 g = T.and_(g, body[2])
                 body = body[3]
-            if body[0] == 'a' and body[1] == 'and' and g is not T.TRUE and has_quant(body):
-                sub = []
-                flatten_conj(body, sub)
-                for s_ in sub:
-                    if s_[0] == 'q' and s_[1] == 'forall':
-                        quants.append((g, s_))
-                    elif has_quant(s_):
-                        quants.append((g, s_))
-                    else:
-                        ground.append(T.implies(g, s_))
-                continue
-            if body[0] == 'q' and body[1] == 'forall':
-                quants.append((g, body))
-            elif has_quant(p):
-                quants.append((T.TRUE, p))
-            else:
-                ground.append(p)
+            sub = []
+            flatten_conj(body, sub)
+            for s_ in sub:
+                if has_quant(s_):
+                    quants.append((g, s_))
+                else:
+                    ground.append(T.implies(g, s_))
+    return ground, quants
+
+
+def instantiate(hyps, goal_parts, rounds=2, per_quant=60, cap=1200):
+    """returns (ground hyps incl. instances, had_quantifiers)."""
+    ground, quants = split_quants(hyps)
     if not quants:
         return ground, False
+    bound_names = set()
+    for h in hyps:
+        for s_ in T.subterms(h):
+            if s_[0] == 'q':
+                for n, _ in s_[2]:
+                    bound_names.add(n)
     insts = []
     seen = set()
-    dropped = False
-    for _ in range(rounds):
-        idx = ground_index_terms(ground + insts + goal_parts)
+    import itertools
+    for rnd in range(rounds):
+        idx = ground_index_terms(ground + insts + goal_parts, include_uf=True, bound_names=bound_names)
         new = []
         for g, q in quants:
             if not (q[0] == 'q' and q[1] == 'forall'):
-                dropped = True
                 continue
             vars_ = q[2]
             body = q[3]
-            # index expressions mentioning bound vars
             bnames = [n for n, _ in vars_]
             pats = set()
             for s in T.subterms(body):
                 if s[0] == 'a' and s[1] == 'select':
                     pats.add(s[3])
-                elif s[0] == 'a' and s[1].startswith('uf:'):
+                elif s[0] == 'a' and s[1].startswith('uf:spec_'):
                     for a in s[2:]:
                         if a[0] != 'b' and T.sort_of(a) == T.INT:
                             pats.add(a)
-            cands = {n: set() for n in bnames}
+            cands = {n: {} for n in bnames}
             for pexp in pats:
                 fv = T.free_vars(pexp)
                 inv = [n for n in bnames if n in fv]
                 if len(inv) != 1:
                     continue
                 n = inv[0]
-                for e in idx:
+                for e in idx.values():
                     sol = T.solve_for(n, pexp, e)
                     if sol is not None:
-                        cands[n].add(sol)
-            # cross product (bounded)
-            lists = [sorted(cands[n], key=repr) for n in bnames]
+                        cands[n].setdefault(T.linear(sol), sol)
+            lists = [sorted(cands[n].values(), key=lambda x: (len(repr(x)), repr(x))) for n in bnames]
             if any(not l for l in lists):
                 continue
             total = 1
             for l in lists:
                 total *= len(l)
-            if total > 600:
-                lists = [l[:max(1, int(600 ** (1.0 / len(lists))))] for l in lists]
-            import itertools
+            if total > per_quant:
+                k = max(1, int(per_quant ** (1.0 / len(lists))))
+                lists = [l[:k] for l in lists]
             for combo in itertools.product(*lists):
                 key = (q, combo)
                 if key in seen:
@@ -291,11 +300,10 @@ def instantiate(hyps, goal_parts, rounds=2, cap=4000):
                 m = dict(zip(bnames, combo))
                 inst = T.substitute(body, m)
                 if has_quant(inst):
-                    dropped = True
                     continue
                 new.append(T.implies(g, inst))
-                if len(insts) + len(new) > cap:
-                    break
+            if len(insts) + len(new) > cap:
+                break
         if not new:
             break
         insts.extend(new)
